@@ -335,6 +335,9 @@ func genC20(seed uint64, thorough bool) *c20Case {
 			switch {
 			case j == nt-1 && r.Chance(0.6):
 				seps = append(seps, "") // ";" directly after the last token
+			case r.Chance(0.04):
+				// an empty (or blank) line in the middle of a statement
+				seps = append(seps, []string{"\r\r", "\r \r", " \r\r\r"}[r.Intn(3)])
 			case r.Chance(0.25):
 				seps = append(seps, "\r")
 			default:
